@@ -1,11 +1,133 @@
-//! Thread-mode support: a condvar the parked executor waits on.
+//! Thread mode: other threads invoke handed wakers at random instants while the owner thread runs the
+//! wake-only executor (parked on a condvar that the caller's wakers signal).
+//!
+//! Fires issued by the other threads are logged as `tfire` events *at their start*, under the world lock
+//! (so their order relative to `cpoll` events is exact: the waker fired is the one the world holds at that
+//! instant).  No instantaneous obligation is evaluated on them (the wake itself happens some time after the
+//! log entry); lost wake-ups show up as a hang at the quiescence check of the single-threaded epilogue, or
+//! as a watchdog expiry.
+use std::sync::atomic::{AtomicBool, AtomicU64, Ordering};
 use std::sync::{Condvar, Mutex};
+use std::time::{Duration, Instant};
+
+use crate::exec::Exec;
+use crate::gen::Rng;
+use crate::world::with;
 
 pub static PARK: (Mutex<u64>, Condvar) = (Mutex::new(0), Condvar::new());
+/// Time (ms since start) at which the owner thread entered the current poll, 0 = not polling.
+pub static IN_POLL_SINCE: AtomicU64 = AtomicU64::new(0);
 
 pub fn notify() {
     let (m, cv) = &PARK;
     let mut g = m.lock().unwrap_or_else(|e| e.into_inner());
     *g += 1;
     cv.notify_all();
+}
+
+fn park(ms: u64) {
+    let (m, cv) = &PARK;
+    let g = m.lock().unwrap_or_else(|e| e.into_inner());
+    let _ = cv.wait_timeout(g, Duration::from_millis(ms));
+}
+
+/// One concurrent fire: pick a handed waker, log `tfire`, invoke it.
+fn fire_one(rng: &mut Rng) {
+    let got = with(|w| {
+        let cands: Vec<usize> = (0..w.handed.len()).filter(|&c| !w.handed[c].is_empty()).collect();
+        if cands.is_empty() {
+            return None;
+        }
+        let c = cands[rng.below(cands.len() as u64) as usize];
+        let len = w.handed[c].len();
+        // mostly the latest waker, sometimes a stale one
+        let k = if rng.chance(80) { len - 1 } else { rng.below(len as u64) as usize };
+        let wk = w.handed[c][k].clone();
+        let (wid, _) = w.wid_of(&wk);
+        if k == len - 1 {
+            w.fired_latest[c] = true;
+        }
+        w.ev(format_args!("{{\"e\":\"tfire\",\"c\":{},\"k\":{},\"wid\":{}}}", c, k, wid));
+        Some((wk, c, k, wid))
+    });
+    if let Some((wk, c, k, wid)) = got {
+        let r = std::panic::catch_unwind(std::panic::AssertUnwindSafe(|| wk.wake_by_ref()));
+        with(|w| {
+            if r.is_err() {
+                w.ev(format_args!("{{\"e\":\"panic\",\"at\":\"wake\"}}"));
+            }
+            // the invocation has returned: it took effect somewhere between `tfire` and `tfired`
+            w.ev(format_args!("{{\"e\":\"tfired\",\"c\":{},\"k\":{},\"wid\":{}}}", c, k, wid));
+        });
+    }
+}
+
+/// Run `nthreads` firing threads (each `fires` fires) concurrently with the wake-only executor.
+pub fn run(ex: &mut Exec, nthreads: usize, fires: usize, seed: u64) {
+    with(|w| w.ev(format_args!("{{\"e\":\"tstart\",\"threads\":{},\"fires\":{}}}", nthreads, fires)));
+    let done = AtomicBool::new(false);
+    let live = AtomicU64::new(nthreads as u64);
+    let t0 = Instant::now();
+    std::thread::scope(|s| {
+        for t in 0..nthreads {
+            let live = &live;
+            s.spawn(move || {
+                let mut rng = Rng::new(seed ^ ((t as u64 + 1) << 32));
+                for _ in 0..fires {
+                    fire_one(&mut rng);
+                    match rng.below(4) {
+                        0 => std::thread::yield_now(),
+                        1 => std::thread::sleep(Duration::from_micros(rng.below(200))),
+                        _ => {
+                            for _ in 0..rng.below(2000) {
+                                std::hint::spin_loop();
+                            }
+                        }
+                    }
+                }
+                live.fetch_sub(1, Ordering::SeqCst);
+                notify();
+            });
+        }
+        // watchdog: a poll that does not return is a deadlock of the code under test
+        let done_ref = &done;
+        s.spawn(move || {
+            while !done_ref.load(Ordering::SeqCst) {
+                std::thread::sleep(Duration::from_millis(50));
+                let since = IN_POLL_SINCE.load(Ordering::SeqCst);
+                let now = t0.elapsed().as_millis() as u64 + 1;
+                if since != 0 && now > since + 10_000 {
+                    eprintln!("WATCHDOG: a poll has not returned for 10 s (deadlock)");
+                    std::process::abort();
+                }
+            }
+        });
+        // the owner thread: wake-only executor
+        let mut idle_rounds = 0u32;
+        loop {
+            if ex.cut.is_none() || ex.finished {
+                break;
+            }
+            if ex.should_poll() {
+                IN_POLL_SINCE.store(t0.elapsed().as_millis() as u64 + 1, Ordering::SeqCst);
+                ex.poll(false);
+                IN_POLL_SINCE.store(0, Ordering::SeqCst);
+                idle_rounds = 0;
+                continue;
+            }
+            if live.load(Ordering::SeqCst) == 0 {
+                idle_rounds += 1;
+                if idle_rounds > 2 {
+                    break;
+                }
+            }
+            park(2);
+        }
+        // let the firing threads finish even if the combinator is done
+        while live.load(Ordering::SeqCst) != 0 {
+            park(2);
+        }
+        done.store(true, Ordering::SeqCst);
+    });
+    with(|w| w.ev(format_args!("{{\"e\":\"tjoin\"}}")));
 }
